@@ -203,3 +203,31 @@ def execute_live(prop: str, spec: dict, rules: set[str], nontrivial_keys: tuple[
                             extra={"sim_seconds": (simclock.CLOCK.us - spec["t0_us"]) / 1e6})
     finally:
         world.destroy()
+
+
+def add_static_sessions(spec: dict, seed: int, media: bool) -> None:
+    """Every observer also asks for static manifests of its stream - before, between and after its live sessions
+    (the order matters for anything the server keeps between requests).  ``media``: fetch the media segments a static
+    manifest enumerates, not only its initialization segments."""
+    from . import c06
+    rng = base.rng_for(seed, "gen-vod")
+    for a in spec["actors"]:
+        if not a["id"].startswith("obs"):
+            continue
+        first = next((s for s in a["script"] if s["op"] == "manifest"), None)
+        if first is None:
+            continue
+        if media:
+            a["static_media"] = True
+        stream = first["path"].split("/")[3]
+        for _ in range(rng.choice([1, 2, 2, 3])):
+            manifest = rng.choice([m for m, mode in c06.VOD_TEMPLATES if mode == "vod"])
+            q = c06.vod_vector(rng, manifest, "vod", encrypted_ok=(stream == "bbb"))
+            if stream == "bbb" and rng.random() < 0.5:
+                q["drm"] = optgen.gen_drm(rng)
+            pos = rng.choice([0, len(a["script"]), rng.randrange(0, len(a["script"]) + 1)])
+            # never split a manifest from the segments step that follows it
+            while 0 < pos < len(a["script"]) and a["script"][pos]["op"] == "segments":
+                pos += 1
+            a["script"][pos:pos] = [{"op": "manifest", "path": f"/dash/vod/{stream}/{manifest}", "q": q},
+                                    {"op": "segments", "select": "edges", "max": 12}]
